@@ -24,6 +24,10 @@ extra_notes = {
  'C03-i': 'The same change as C09-i (found independently); caught by C09 as it stood, C03 got state grestart-paused.',
  'C10-i': 'Caught by C06 and C07 as they stood; C10 got life=stopping.',
  'C14-i': 'First seen through the writer pool shared by the systems of one execution (C11 ask scenarios); the faithful two-peers scenario was added and is part of C11 and C14.',
+ 'C03-j': 'NOT caught by the C03 check within its quick bounds (nor at bound 3); caught by C01 (no-lost-wakeup, 1 preemption) and by C09 (hybrid scenarios). See DESIGN.md 7.5.',
+ 'C06-j': 'Caught by C07 and C08 as they stood; C06 got fails=on-child-death.',
+ 'C20-j': 'Caught by C06 (owns=true, jobs-released) as it stood; C20 got an owner with a child.',
+ 'C14-j': 'The change of C11-i at another place; rejected-in-flight is now part of C14 as well.',
  'C15-i': 'The change of C14-h again (frame header read with a single Read); caught by C11 and C14 as they stood, C15 got the short-reads pre-phase.',
 }
 for d in sorted(glob.glob(root + '/C*/')):
